@@ -166,6 +166,8 @@ struct Job {
     src: String,
     dst: String,
     id: Option<TransactionID>,
+    /// the source file does not exist: the Put request cannot start a transaction
+    ghost: bool,
 }
 
 #[derive(Default, Clone)]
@@ -286,7 +288,9 @@ async fn run_scenario(out: &mut dyn Write, viol: &mut u64, base: &Utf8PathBuf, s
     // ---- the users: put the source files in place and issue the requests
     let mut jobs = sc.jobs;
     for j in jobs.iter_mut() {
-        std::fs::write(nodes[&j.from].root.join(&j.src), &j.file).unwrap();
+        if !j.ghost {
+            std::fs::write(nodes[&j.from].root.join(&j.src), &j.file).unwrap();
+        }
         let (tx, rx) = oneshot::channel();
         let req = PutRequest {
             source_filename: j.src.clone().into(),
@@ -380,6 +384,14 @@ async fn run_scenario(out: &mut dyn Write, viol: &mut u64, base: &Utf8PathBuf, s
     let ctx = || format!("scenario {} || link log: {}", tag, log.lock().unwrap().iter().take(120).cloned().collect::<Vec<_>>().join(" | "));
     let mut ids: Vec<String> = vec![];
     for j in &jobs {
+        if j.ghost {
+            // no transaction can start; should the daemon hand out an id all the same, it must not be anyone else's
+            if let Some(id) = &j.id {
+                ids.push(format!("{}:{}", j.from, id_repr(id)));
+            }
+            *tally.entry("ghost_puts").or_insert(0) += 1;
+            continue;
+        }
         let Some(id) = &j.id else {
             *viol += 1;
             oracle(out, "C11", "put_answered", &format!("Put request got no transaction id || {}", ctx()));
@@ -588,7 +600,7 @@ pub fn run(opts: &Opts, out: &mut dyn Write) {
         let sc = Scenario {
             horizon_s: (cfg.max as u64 + 2) * (cfg.ti + cfg.ta + cfg.tn) as u64 * 3 + 20,
             cfg,
-            jobs: vec![Job { from: 1, to: 2, mode: TransmissionMode::Acknowledged, file, src: "src0.bin".into(), dst: "dst0.bin".into(), id: None }],
+            jobs: vec![Job { from: 1, to: 2, mode: TransmissionMode::Acknowledged, file, src: "src0.bin".into(), dst: "dst0.bin".into(), id: None, ghost: false }],
             plan,
             kplan,
             strays: vec![],
@@ -623,6 +635,8 @@ pub fn run(opts: &Opts, out: &mut dyn Write) {
                 src: format!("src{}.bin", i),
                 dst: format!("dst{}.bin", i),
                 id: None,
+                // one Put in six names a source file that does not exist
+                ghost: rng.chance(1, 6),
             });
         }
         let mut strays = vec![];
@@ -697,8 +711,8 @@ pub fn run(opts: &Opts, out: &mut dyn Write) {
     for k in 0..n_burst {
         let cfg = Cfg { seg: 64, max: 3, ti: 20, ta: 20, tn: 20, crc: rng.chance(1, 2), closure: false, nak: NakProcedure::Deferred(Duration::ZERO) };
         let jobs = vec![
-            Job { from: 1, to: 2, mode: TransmissionMode::Unacknowledged, file: lin(150 * 64 + 5 + 64 * rng.below(40) as usize, 7, 3), src: "long.bin".into(), dst: "long.out".into(), id: None },
-            Job { from: 1, to: 2, mode: if rng.chance(1, 2) { TransmissionMode::Acknowledged } else { TransmissionMode::Unacknowledged }, file: lin(700, 11, 5), src: "short.bin".into(), dst: "short.out".into(), id: None },
+            Job { from: 1, to: 2, mode: TransmissionMode::Unacknowledged, file: lin(150 * 64 + 5 + 64 * rng.below(40) as usize, 7, 3), src: "long.bin".into(), dst: "long.out".into(), id: None, ghost: false },
+            Job { from: 1, to: 2, mode: if rng.chance(1, 2) { TransmissionMode::Acknowledged } else { TransmissionMode::Unacknowledged }, file: lin(700, 11, 5), src: "short.bin".into(), dst: "short.out".into(), id: None, ghost: false },
         ];
         let tag = format!("c11-burst-{}-seed{}", k, opts.seed);
         let sc = Scenario { horizon_s: 15, cfg, jobs, plan: BTreeMap::new(), kplan: BTreeMap::new(), strays: vec![], isolation: true, slow_ms: 400, early_exit: true, bounded: true };
